@@ -135,6 +135,16 @@ fn do_call(c: Call, fs: &[(String, String)], detectors: &[Detector]) -> Result<L
     dets::run_guarded(&detectors[c.d], &fs[c.f].1, c.fileno)
 }
 
+fn dedup<T: PartialEq + Copy>(xs: &[T]) -> Vec<T> {
+    let mut v: Vec<T> = Vec::new();
+    for x in xs {
+        if !v.contains(x) {
+            v.push(*x);
+        }
+    }
+    v
+}
+
 fn mismatch(c: Call, got: &Result<Lines, String>, r0: &HashMap<(usize, &'static str), Lines>, detectors: &[Detector]) -> bool {
     match got {
         Ok(g) => r0.get(&(c.f, detectors[c.d].name)).map(|w| w != g).unwrap_or(false),
@@ -344,6 +354,131 @@ pub fn run(tier: Tier) -> i32 {
         }
     }
 
+    // ---- lists in which a pattern is named more than once (a configuration file may do that): [a, b, a] for every
+    //      ordered pair of one category and [a, a]; the lines of every (file, pattern) entry are still those of the
+    //      file analysed alone, and no (file, pattern) with findings is lost
+    {
+        let tree: Vec<Entry> = (0..n).map(|i| fe(i)).collect();
+        let root = std::path::PathBuf::from(format!("/dev/shm/solstat-mc.{}.c15rep", std::process::id()));
+        let root = if std::path::Path::new("/dev/shm").is_dir() { root } else { std::path::PathBuf::from(format!("/verif/.build/scratch/c15rep.{}", std::process::id())) };
+        let _ = std::fs::remove_dir_all(&root);
+        fsx::materialise(&root, &tree);
+        let o = opt::get_all_optimizations();
+        let v = vul::get_all_vulnerabilities();
+        let q = qa::get_all_qa();
+        let mut sels: Vec<fsx::Selection> = Vec::new();
+        for a in 0..o.len() {
+            sels.push(fsx::Selection { opts: vec![o[a], o[a]], vulns: vec![], qas: vec![] });
+            for b in 0..o.len() {
+                if a != b {
+                    sels.push(fsx::Selection { opts: vec![o[a], o[b], o[a]], vulns: vec![], qas: vec![] });
+                }
+            }
+        }
+        for a in 0..v.len() {
+            for b in 0..v.len() {
+                sels.push(fsx::Selection { opts: vec![], vulns: if a == b { vec![v[a], v[a]] } else { vec![v[a], v[b], v[a]] }, qas: vec![] });
+            }
+        }
+        for a in 0..q.len() {
+            for b in 0..q.len() {
+                sels.push(fsx::Selection { opts: vec![], vulns: vec![], qas: if a == b { vec![q[a], q[a]] } else { vec![q[a], q[b], q[a]] } });
+            }
+        }
+        let rres = util::par_map(sels.len(), |si| {
+            let sel = &sels[si];
+            let got = fsx::run_analyze_dir(&root, sel);
+            let want = fsx::per_file_union(&tree, &fsx::Selection { opts: dedup(&sel.opts), vulns: dedup(&sel.vulns), qas: dedup(&sel.qas) });
+            let norm = |f: &Result<fsx::Findings, String>| f.as_ref().ok().map(|m| m.iter().map(|(k, v)| (*k, v.iter().cloned().collect::<BTreeSet<_>>())).filter(|(_, v)| !v.is_empty()).collect::<Vec<_>>());
+            if norm(&got) != norm(&want) || got.is_err() {
+                Some(Violation {
+                    site: "directory:repeated-pattern-in-the-list-changes-a-verdict".into(),
+                    input: format!("tree {} selection #{} (a pattern named twice)", fsx::describe(&tree), si),
+                    expected: "every (file, pattern) entry equals the result of analysing that file alone".into(),
+                    observed: format!("{:?} vs {:?}", norm(&got).map(|g| g.len()), norm(&want).map(|g| g.len())),
+                    size: 5,
+                    unit_test: String::new(),
+                    extra: json!({}),
+                })
+            } else {
+                None
+            }
+        });
+        dir_states += sels.len() as u64;
+        for v in rres.into_iter().flatten() {
+            run.violation(v);
+        }
+        let _ = std::fs::remove_dir_all(&root);
+    }
+    // ---- the command-line program: a pattern selected alone and together with one pattern of each other category
+    //      lists the same entries for every file
+    if let Some(bin) = crate::binx::bin_path() {
+        let tb = crate::report::tables();
+        let root = crate::report::scratch_dir("c15bin");
+        let proj = root.join("proj");
+        let tree: Vec<Entry> = (0..n).map(|i| fe(i)).collect();
+        fsx::materialise(&proj, &tree);
+        let names = |xs: &[&str]| xs.iter().map(|x| x.to_string()).collect::<Vec<String>>();
+        let all = (names(dets::OPT_NAMES), names(dets::VULN_NAMES), names(dets::QA_NAMES));
+        let mut jobs: Vec<(String, usize, (Vec<String>, Vec<String>, Vec<String>))> = Vec::new();
+        for (cat, list) in [(0usize, &all.0), (1, &all.1), (2, &all.2)] {
+            for (k, name) in list.iter().enumerate() {
+                let one = |c: usize| if c == cat { vec![name.clone()] } else { vec![] };
+                jobs.push((name.clone(), cat, (one(0), one(1), one(2))));
+                let with = |c: usize, l: &Vec<String>| if c == cat { vec![name.clone()] } else { vec![l[k % l.len()].clone()] };
+                jobs.push((name.clone(), cat, (with(0, &all.0), with(1, &all.1), with(2, &all.2))));
+            }
+        }
+        let res = util::par_map(jobs.len(), |j| {
+            let (_, _, (o, v, q)) = &jobs[j];
+            let cwd = root.join(format!("cwd{}", j));
+            std::fs::create_dir_all(&cwd).unwrap();
+            crate::binx::write_toml(&cwd.join("cfg.toml"), proj.to_str().unwrap(), o, v, q);
+            let out = crate::binx::run_bin(&bin, &cwd, &["--toml", "cfg.toml"]);
+            let rep = std::fs::read_to_string(cwd.join("solstat_report.md")).ok();
+            (out.code, rep)
+        });
+        for ((name, cat, sel), (code, rep)) in jobs.iter().zip(res) {
+            dir_states += 1;
+            let d = match detectors.iter().position(|d| d.name == name.as_str()) {
+                Some(d) => d,
+                None => continue,
+            };
+            let pat = match cat {
+                0 => crate::report::Pat::O(opt::get_all_optimizations().iter().position(|x| *x == opt::str_to_optimization(name)).unwrap()),
+                1 => crate::report::Pat::V(vul::get_all_vulnerabilities().iter().position(|x| *x == vul::str_to_vulnerability(name)).unwrap()),
+                _ => crate::report::Pat::Q(qa::get_all_qa().iter().position(|x| *x == qa::str_to_qa(name)).unwrap()),
+            };
+            let mut want: Vec<(String, i64)> = Vec::new();
+            for (f, (fname, _)) in fs.iter().enumerate() {
+                if let Some(ls) = r0.get(&(f, detectors[d].name)) {
+                    for l in ls {
+                        want.push((format!("{}.sol", fname), *l as i64));
+                    }
+                }
+            }
+            want.sort();
+            let got: Option<Vec<(String, i64)>> = rep.as_ref().map(|r| {
+                let mut g = crate::report::parse_report(r, &tb).entries.get(&pat).cloned().unwrap_or_default();
+                g.sort();
+                g
+            });
+            if code != Some(0) || got.as_ref() != Some(&want) {
+                run.violation(Violation {
+                    site: format!("binary:{}:entries-depend-on-co-selected-patterns", name),
+                    input: format!("configuration optimizations={:?} vulnerabilities={:?} qa={:?} on {}", sel.0, sel.1, sel.2, fsx::describe(&tree)),
+                    expected: format!("the entries of {} are those of each file analysed alone: {:?}", name, want),
+                    observed: format!("exit {:?}; entries {:?}", code, got),
+                    size: sel.0.len() + sel.1.len() + sel.2.len(),
+                    unit_test: String::new(),
+                    extra: json!({}),
+                });
+            }
+        }
+        let _ = std::fs::remove_dir_all(&root);
+    } else {
+        run.machinery("SOLSTAT_BIN (unhooked binary) not found".into());
+    }
     eprintln!("[C15 phase] before 'threads under a baton': {:.1}s", t_phase.elapsed().as_secs_f64());
     // ---------------------------------------------------------------- threads under a baton
     let reduced: Vec<Call> = {
